@@ -26,6 +26,23 @@ def cases(rng, tier):
             c.lines += ["sim.prog " + " ".join(prog2), "sim.snap"]
             c.meta["reload"] = True
         yield c
+    # reload and RUN the second program: (a) a longer straight-line program continued at the pc the first one stopped at,
+    # (b) the pc put back to 0 — in both cases nothing of the first program may be fetched or counted
+    for i in range(40 if tier == "quick" else 600):
+        mode = "five" if i % 2 else "single"
+        n1 = rng.choice([1, 2, 3, 5, 6])
+        n2 = n1 + rng.choice([1, 2, 3, 6])
+        p1 = [rvgen.tok("addi", 1 + k % 5, 0, 0, k + 1) for k in range(n1)]
+        p2 = [rvgen.tok("addi", 6 + k % 5, 0, 0, 100 + k) for k in range(n2)]
+        ispec = f"{rng.choice(['lru', 'plru'])},{rng.choice([0, 1])},{rng.choice([1, 2, 3])},{rng.choice([1, 2])},{rng.choice([0, 3])}"
+        lines = [f"sim.new {mode} 1 - {ispec}", "sim.prog " + " ".join(p1), "sim.snap", "sim.run 200", "sim.snap", "sim.prog " + " ".join(p2)]
+        if i % 4 >= 2:
+            lines.append("sim.pc 0")
+        lines.append("sim.snap")
+        for _ in range(6):
+            lines += ["sim.step", "sim.snap"]
+        lines += ["sim.run 200", "sim.snap"]
+        yield Case("sim-icache-reload", lines, None, {"mode": mode, "reload": True, "prog": p1, "regs": {}, "pokes": [], "d": "-", "i": ispec, "hazard": True})
 
 
 nontrivial = lambda c: "\n".join(c.lines[:3])
@@ -66,7 +83,6 @@ def oracle(c):
         if l.split()[0] in ("sim.prog", "sim.reg", "sim.poke"):
             im.run(l)
     sys_ = im.sim.state.instruction_memory
-    ref = tagref.RefCache(int(ib), int(bb), int(assoc), pol)
     orig = sys_.read_instruction
     log = []
 
@@ -74,35 +90,47 @@ def oracle(c):
         r = orig(address)
         log.append((address, r))
         return r
-    sys_.read_instruction = spy
-    k = 0
-    cyc_pen = 0
-    try:
-        while not im.sim.is_done() and k < 2000:
-            before = len(log)
-            c0 = im.sim.state.performance_metrics.cycles
-            dm0 = getattr(im.sim.state.memory, "accesses", 0) - getattr(im.sim.state.memory, "hits", 0)
-            im.sim.step()
-            k += 1
-            for (ad, r) in log[before:]:
-                hit = ref.read(ad, True)
-                inner = sys_.instruction_memory.instructions.get(ad)
-                if r is not inner:
-                    fails.append(Failure("oracle", PROP, f"fetch at {ad} returned {r!r}, instruction memory holds {inner!r}", "icache:wrong-instruction"))
-                    return fails
-            if (sys_.hits, sys_.accesses, sys_.last_was_hit) != (ref.hits, ref.accesses, ref.last) and log:
-                fails.append(Failure("oracle", PROP, f"icache counters {(sys_.hits, sys_.accesses, sys_.last_was_hit)} != reference {(ref.hits, ref.accesses, ref.last)} after {k} steps", "icache:counters"))
-                return fails
-    except Exception:
-        pass
+
+    def drive(ref, what):
+        """step to the end; every fetch must return the instruction the instruction memory holds, the counters must be
+        those of the reference cache fed the same addresses"""
+        k = 0
+        sys_.read_instruction = spy
+        try:
+            while not im.sim.is_done() and k < 2000:
+                before = len(log)
+                im.sim.step()
+                k += 1
+                for (ad, r) in log[before:]:
+                    ref.read(ad, True)
+                    inner = sys_.instruction_memory.instructions.get(ad)
+                    if r is not inner:
+                        return Failure("oracle", PROP, f"{what}fetch at {ad} returned {r!r}, instruction memory holds {inner!r}", "icache:wrong-instruction")
+                if (sys_.hits, sys_.accesses, sys_.last_was_hit) != (ref.hits, ref.accesses, ref.last) and log:
+                    return Failure("oracle", PROP, f"{what}icache counters {(sys_.hits, sys_.accesses, sys_.last_was_hit)} != reference {(ref.hits, ref.accesses, ref.last)} after {k} steps", "icache:counters")
+        except Exception:
+            pass
+        finally:
+            sys_.read_instruction = orig
+        return None
+    f = drive(tagref.RefCache(int(ib), int(bb), int(assoc), pol), "")
+    if f is not None:
+        return [f]
     if mode == "single" and sys_.accesses != im.sim.state.performance_metrics.instruction_count:
         fails.append(Failure("oracle", PROP, f"single-cycle mode: icache accesses {sys_.accesses} != executed instructions {im.sim.state.performance_metrics.instruction_count}", "icache:access-count"))
-    # (3) after a reload nothing of the previous program remains
+    # (3) after a reload nothing of the previous program remains — neither at once nor while the new program runs
     if second is not None:
-        sys_.read_instruction = orig
         im.run(c.lines[second])
         if sys_.hits or sys_.accesses or sys_.last_was_hit or any(b_.valid_bit for s in sys_.cache.sets for b_ in s.blocks):
             fails.append(Failure("oracle", PROP, "after reset+reload the instruction cache still holds blocks or counters of the previous program", "icache:reset"))
+            return fails
+        for l in c.lines[second + 1:]:
+            if l.split()[0] in ("sim.reg", "sim.poke", "sim.pc"):
+                im.run(l)
+        del log[:]
+        f = drive(tagref.RefCache(int(ib), int(bb), int(assoc), pol), "after a reload: ")
+        if f is not None:
+            fails.append(f)
     return fails
 
 
